@@ -1,0 +1,38 @@
+//go:build verif
+
+package xmss
+
+// Hook points for the verification harness (build tag "verif"). Each hook is
+// a nil function variable: unless a harness installs it, behaviour is
+// identical to the untagged build.
+
+// VerifLeafHook, when installed, may supply the value of leaf otsAddr[4]
+// (returning true) instead of the WOTS/L-tree computation. Used to walk the
+// BDS traversal of tall trees with cheap synthetic leaves.
+var VerifLeafHook func(hf HashFunction, leaf []uint8, idx uint32) bool
+
+// VerifHashHook observes every coreHash call (input buffer and output).
+var VerifHashHook func(hf HashFunction, typeValue uint32, buf, out []uint8)
+
+// VerifRoundHook observes every traversal step: site 0 = signing,
+// site 1 = fast-forward (SetIndex).
+var VerifRoundHook func(site int, leafIdx uint32)
+
+func verifLeaf(hf HashFunction, leaf []uint8, otsAddr *[8]uint32) bool {
+	if VerifLeafHook != nil {
+		return VerifLeafHook(hf, leaf, otsAddr[4])
+	}
+	return false
+}
+
+func verifHash(hf HashFunction, typeValue uint32, buf, out []uint8) {
+	if VerifHashHook != nil {
+		VerifHashHook(hf, typeValue, buf, out)
+	}
+}
+
+func verifRound(site int, leafIdx uint32) {
+	if VerifRoundHook != nil {
+		VerifRoundHook(site, leafIdx)
+	}
+}
